@@ -177,6 +177,7 @@ impl Output {
                         // threads continue working. Deleting can take a while for large files.
                         if rename_status.is_ok() {
                             rayon::spawn(move || {
+                                crate::verif_phase!("verif: delete old output");
                                 let _ = std::fs::remove_file(renamed_old_file);
                                 // Note, we don't currently signal when we've finished deleting the
                                 // file. Based on experiments run on Linux 6.9.3, if we exit while
